@@ -252,10 +252,17 @@ def histories(run, part):
         last = None
         accepted = []
         log = []
+        old_keys = []
         for step in range(50):
             t += rng.choice([0, 0, 1, period // 2, period, period + 1, 3 * period])
             cur = t // period
-            kind = rng.choice(["current", "current", "replay", "stale", "future", "previous", "garbage", "next"])
+            if step and rng.random() < 0.1:
+                # the application rotates the secret on the object it already used: from now on only the new key's codes count
+                old_keys.append(key)
+                key = H.pw_bytes(rng, rng.choice([10, 20, 32]), "binary")
+                otp.key = key
+                run.count("rekeyed_in_history")
+            kind = rng.choice(["current", "current", "replay", "stale", "future", "previous", "garbage", "next"] + (["old-key"] * 2 if old_keys else []))
             if kind == "replay" and accepted:
                 c = rng.choice(accepted)
             elif kind == "stale":
@@ -268,7 +275,7 @@ def histories(run, part):
                 c = cur + 1
             else:
                 c = cur
-            token = ref_hotp(key, c, digits, "sha1") if kind != "garbage" else "0" * digits
+            token = ref_hotp(old_keys[-1] if kind == "old-key" else key, c, digits, "sha1") if kind != "garbage" else "0" * digits
             want = model(key, "sha1", digits, period, token, t, window, 0, last)
             try:
                 got, m = real(otp, token, t, window, 0, last)
@@ -316,6 +323,7 @@ def body(run):
     run.require("cube_matches", 300000)
     run.require("random_matches", 5000)
     run.require("history_steps", 20000)
+    run.require("rekeyed_in_history", 500)
     run.require("colliding_cases", 5)
     run.require("class_level_verify", 10000)
     for o in ("accept", "used", "invalid", "malformed"):
